@@ -97,6 +97,39 @@ def iqDispatch (tbl : Table) (typ : String) (n : Name) : IqOutcome :=
   | some p => .handler p
   | none => if typ == "error" || typ == "result" then .nothing else .fallback
 
+/-! ### `iqRouter`: the payload handed to an IQ handler -/
+
+/-- whitespace-only character data (`decl.TrimLeftSpace`) -/
+def isSpaceTok : Tok → Bool
+  | .chars s => s.all fun c => c == ' ' || c == '\n' || c == '\r' || c == '\t'
+  | _ => false
+
+inductive IqRes
+  /-- a registered handler runs: its pattern, the payload start element's name it is given,
+  the tokens it reads -/
+  | handler (p : Pattern) (payload : Name) (view : List Tok)
+  | fallback | nothing
+  /-- `iqRouter` returns an error without invoking any handler -/
+  | err
+  deriving DecidableEq, Repr
+
+/-- `iqRouter` on a whole IQ stanza (start tag first, end tag last) of type `typ`; the invoked
+handler calls `Token` `c` times: it is given the first child element's start tag (whitespace
+before it skipped) and reads what follows it inside the IQ, never the IQ's end tag -/
+def iqRoute (tbl : Table) (typ : String) (stanza : List Tok) (c : Nat) : IqRes :=
+  match stanza with
+  | [] => .err
+  | _ :: body =>
+    let out (n : Name) (rest : List Tok) : IqRes :=
+      match iqDispatch tbl typ n with
+      | .handler p => .handler p n (rest.take c)
+      | .fallback => .fallback
+      | .nothing => .nothing
+    match body.dropLast.dropWhile isSpaceTok with
+    | [] => if typ == "result" then out ⟨"", ""⟩ [] else .err
+    | .start n _ :: rest => out n rest
+    | _ => .err
+
 /-! ### `forChildren`: per-child dispatch with the replay buffer -/
 
 /-- a `bufReader` over the stanza: tokens already read (`buf`) and tokens still in the
